@@ -578,6 +578,14 @@ func Sharing(r *rand.Rand, o SharingOpts) *Grammar {
 		if o.Trims {
 			n = 16
 		}
+		if r.Intn(6) == 0 {
+			// one Optional over the producer, extended by a consumer of its own: several of these in one grammar are
+			// structurally equal, and with Hooks.ShareExprs they are ONE Optional value mentioned in several rules
+			if r.Intn(2) == 0 {
+				return g.Mk(OpAny, g.Mk(OpOpt, m()), leaf())
+			}
+			return g.Mk(OpSeqOf, g.Mk(OpAny, g.Mk(OpOpt, m()), leaf()), leaf())
+		}
 		switch r.Intn(n) {
 		case 0:
 			return g.Mk(OpAny, m(), leaf())
